@@ -15,6 +15,7 @@ import (
 var (
 	errEmptyInAnyOf                        = errors.New("canno have empty anyOf array")
 	errTooManyTypesForAdditionalProperties = errors.New("cannot support multiple types for additional properties")
+	errEmptyKeyInDefault                   = errors.New("default object has an empty key, which cannot name a struct field")
 )
 
 const float64Type = "float64"
@@ -818,6 +819,12 @@ func (g *schemaGenerator) addStructField(
 	switch {
 	case prop.Default != nil:
 		structField.DefaultValue = g.defaultPropertyValue(prop)
+
+		if m, ok := structField.DefaultValue.(map[string]any); ok {
+			if _, hasEmptyKey := m[""]; hasEmptyKey {
+				return fmt.Errorf("%w: field %q", errEmptyKeyInDefault, name)
+			}
+		}
 
 	default:
 		if isRequired {
